@@ -242,6 +242,8 @@ def buffer_mutations(f, buf_field):
         for st in b.stmts:
             if st[0] == "=" and on_buf(st[1], alias):
                 muts.add(b.idx)
+            if st[0] == "=" and not isinstance(st[1], int) and st[1][0] == 1 and len(st[1][1]) == 1 and st[1][1][0][0] == "*":
+                muts.add(b.idx)         # `*self = ...` replaces every field
         t = b.term
         if t[0] == "call":
             nm = (t[1].get("callee") or "").rsplit("::", 1)[-1]
